@@ -103,14 +103,59 @@ func c02Opts(g G) GenOpts {
 func genC02(t *rapid.T) C02Case {
 	g := G{t}
 	gr := genRequest(t, c02Opts(g))
+	valid := gr // hostile relatives are derived from the valid request
 	if g.Chance(1, 4) {
 		gr = mutateConstraint(t, gr)
 	}
 	c := C02Case{Req: string(mustJSON(gr.Req)), Labels: gr.Labels}
 	for i, n := 0, g.Int(0, 3); i < n; i++ {
-		c.Others = append(c.Others, string(mustJSON(genRequest(t, c02Opts(g)).Req)))
+		switch g.Int(0, 3) {
+		case 0: // a hostile relative of the request itself (same names and shapes: likely to meet it in any cache)
+			c.Others = append(c.Others, string(mustJSON(commaMergedIds(g, valid.Req))))
+		case 1:
+			m, _ := typeMutate(g, valid.Req)
+			c.Others = append(c.Others, string(mustJSON(m)))
+		case 2:
+			c.Others = append(c.Others, string(mustJSON(mutateConstraint(t, valid).Req)))
+		default:
+			c.Others = append(c.Others, string(mustJSON(genRequest(t, c02Opts(g)).Req)))
+		}
 	}
 	return c
+}
+
+// commaMergedIds: the same problem with two criterion ids merged into one id containing the separator the
+// Choquet capacities use ("c1,c2"); usually rejected, but it travels through the same parsers and caches.
+func commaMergedIds(g G, req M) M {
+	m := parseReqM(mustJSON(req))
+	var plain interface{}
+	json.Unmarshal(mustJSON(m), &plain)
+	r := plain.(M)
+	cs := asL(r["criteria"])
+	if len(cs) < 2 {
+		return r
+	}
+	c0, ok0 := cs[0].(M)
+	c1, ok1 := cs[1].(M)
+	if !ok0 || !ok1 {
+		return r
+	}
+	a, _ := c0["id"].(string)
+	b, _ := c1["id"].(string)
+	merged := a + "," + b
+	c0["id"] = merged
+	r["criteria"] = append([]interface{}{cs[0]}, cs[2:]...)
+	for _, alt := range asL(r["knownAlternatives"]) {
+		am, _ := alt.(M)
+		cm := asM(am["criteria"])
+		if cm == nil {
+			continue
+		}
+		cm[merged] = cm[a]
+		delete(cm, a)
+		delete(cm, b)
+	}
+	return r
 }
 
 // ---- corpus for the fresh-process phase
